@@ -9,6 +9,7 @@ import (
 	"math/big"
 	"os"
 	"path/filepath"
+	"runtime/debug"
 	"strings"
 	"sync"
 	"testing"
@@ -70,8 +71,10 @@ func genC12(t *rapid.T) c12Case {
 	n := rapid.IntRange(1, 3).Draw(t, "npaths")
 	for i := 0; i < n; i++ {
 		choices := []string{"build-again", "build-again", "concurrent"}
+		choices = append(choices, "build-memlimit")
 		if cliPath() != "" {
-			choices = append(choices, "cli-r1cs:1", "cli-r1cs:2", "cli-r1cs:3", "cli-r1cs:16")
+			// fresh processes under different runtime settings a deployment may impose
+			choices = append(choices, "cli-r1cs:1", "cli-r1cs:2", "cli-r1cs:3", "cli-r1cs:16", "cli-r1cs:4:GOMEMLIMIT=4GiB", "cli-r1cs:8:GOGC=25", "cli-r1cs:2:GOGC=off:GOMEMLIMIT=8GiB")
 		}
 		c.Paths = append(c.Paths, pick(t, "path", choices...))
 	}
@@ -90,7 +93,12 @@ func runC12(c c12Case) Result {
 		var n int
 		kind := strings.SplitN(path, ":", 2)[0]
 		switch kind {
-		case "build", "build-again":
+		case "build", "build-again", "build-memlimit":
+			if kind == "build-memlimit" {
+				// the same process with a soft memory limit configured, as under GOMEMLIMIT
+				old := debug.SetMemoryLimit(4 << 30)
+				defer debug.SetMemoryLimit(old)
+			}
 			cs, err := buildR1CS(c.Mode, c.Depth, c.Batch)
 			if err != nil {
 				return bad(class, "BuildR1CS:error", "%s: %v", triple, err)
@@ -186,8 +194,10 @@ func runC12(c c12Case) Result {
 			defer os.RemoveAll(dir)
 			out := filepath.Join(dir, "out")
 			gmp := "16"
-			if p := strings.SplitN(path, ":", 2); len(p) == 2 {
+			var extraEnv []string
+			if p := strings.Split(path, ":"); len(p) >= 2 {
 				gmp = p[1]
+				extraEnv = p[2:]
 			}
 			sub := "r1cs"
 			if kind == "cli-setup" {
@@ -197,7 +207,7 @@ func runC12(c c12Case) Result {
 				// the output path already exists and is longer than what will be written (a re-run over an older file)
 				os.WriteFile(out, bytes.Repeat([]byte{0xAA}, refLen+1000), 0o644)
 			}
-			cliEnv := []string{"GOMAXPROCS=" + gmp}
+			cliEnv := append([]string{"GOMAXPROCS=" + gmp}, extraEnv...)
 			if (c.Depth+c.Batch)%2 == 0 {
 				cliEnv = append(cliEnv, "VERIF_CLEAN_ENV=1") // half of the fresh processes get a scrubbed environment
 			}
@@ -302,8 +312,8 @@ func TestC12_SetupPaths(t *testing.T) {
 	col := stats.New("C12", "TestC12_SetupPaths")
 	defer col.Flush()
 	cases := []c12Case{
-		{Mode: "insertion", Depth: 2, Batch: 1, Paths: []string{"build", "setup", "import", "cli-r1cs:1"}},
-		{Mode: "deletion", Depth: 2, Batch: 3, Paths: []string{"build", "setup", "import", "cli-r1cs:3"}},
+		{Mode: "insertion", Depth: 2, Batch: 1, Paths: []string{"build", "setup", "import", "cli-r1cs:1", "build-memlimit"}},
+		{Mode: "deletion", Depth: 2, Batch: 3, Paths: []string{"build", "setup", "import", "cli-r1cs:3:GOMEMLIMIT=4GiB"}},
 	}
 	if Thorough() {
 		cases = append(cases,
